@@ -80,11 +80,23 @@ def shell(draw, l, coord, kmax=4, mmax=3, types=TYPES, exp_lo=0.02, exp_hi=None,
     hi = exp_cap(l) if exp_hi is None else exp_hi
     ex = draw(exponents(k, exp_lo, hi))
     co = [[draw(coefficient()) for _ in range(m)] for _ in range(k)]
+    zeros = False
+    if k >= 2 and m >= 2 and draw(st.integers(0, 3)) == 0:
+        # structural zeros, as in segmented sets written in general-contraction format (cc-pVDZ: columns [c,0],[c,0],[c,1]):
+        # some primitives do not take part in some columns; every column keeps at least one primitive
+        for j in range(m):
+            keep = draw(st.integers(0, k - 1))
+            for i in range(k):
+                if i != keep and draw(st.booleans()):
+                    co[i][j] = 0.0
+        zeros = True
     co, rep = repair_cancellation(l, ex, co)
     t = draw(st.sampled_from(types)) if len(types) > 1 else types[0]
     out = {"l": l, "coord": [float(v) for v in coord], "exps": ex, "coeffs": co, "type": t}
     if rep:
         out["repaired"] = True
+    if zeros:
+        out["structural_zeros"] = True
     return out
 
 
